@@ -1,2 +1,133 @@
-From Verif Require Import Common.Base Generated.C05BackoffValidate C05.Model C05.Proofs.
+(* C05/Witness.v — non-vacuity of the hypotheses of the theorems in Properties.v and concrete runs
+   of the model (vm_compute). *)
+From Verif Require Import Common.Base Generated.C05BackoffValidate C05.Model C05.Proofs C05.Proofs2.
 Local Open Scope Z_scope.
+
+Definition ms : Z := 1000000.
+
+(* the default configuration of the collector: 5 s, factor 0.5, multiplier 1.5, 30 s, 5 min *)
+Definition default_cfg : config :=
+  {| c_enabled := true; c_init := 5000 * ms; c_rf := (1, 2); c_mult := (3, 2); c_maxint := 30000 * ms;
+     c_maxel := 300000 * ms |}.
+
+Example ex_default_valid : valid_config default_cfg.
+Proof. unfold valid_config. vm_compute. repeat split; reflexivity. Qed.
+
+(* Validate rejects: negative interval, factor > 1, budget below the initial interval *)
+Example ex_validate_rejects :
+  backoff_validate true (-1) 1 2 3 2 10 0 <> None /\
+  backoff_validate true 5 3 2 3 2 10 0 <> None /\
+  backoff_validate true 50 1 2 3 2 10 20 <> None /\
+  backoff_validate false (-1) 3 2 (-3) 2 (-10) (-20) = None.
+Proof. vm_compute. repeat split; try discriminate; reflexivity. Qed.
+
+(* the interval sequence of the default configuration: 5 s, 7.5 s, 11.25 s, 16.875 s, 25.3125 s, 30 s, 30 s *)
+Example ex_cur_seq :
+  map (cur_seq default_cfg) [0; 1; 2; 3; 4; 5; 6]%nat =
+  [5000 * ms; 7500 * ms; 11250 * ms; 16875 * ms; 25312500000; 30000 * ms; 30000 * ms].
+Proof. vm_compute. reflexivity. Qed.
+
+(* multiplier 1/2: the interval decays to 0 and is then reset to the initial interval *)
+Example ex_cur_seq_decay :
+  map (cur_seq {| c_enabled := true; c_init := 4; c_rf := (0, 1); c_mult := (1, 2); c_maxint := 100; c_maxel := 0 |})
+      [0; 1; 2; 3; 4]%nat = [4; 2; 1; 4; 2].
+Proof. vm_compute. reflexivity. Qed.
+
+(* a draw in [0,1) exists and the envelope is hit at both ends: u = 0 gives cur/2, u -> 1 gives 3cur/2 + 1 - *)
+Example ex_draws :
+  valid_draw (0, 1) /\ valid_draw (999999, 1000000) /\
+  rand_interval default_cfg 1000 (0, 1) = 500 /\ rand_interval default_cfg 1000 (999999, 1000000) = 1500.
+Proof. vm_compute. repeat split; try discriminate; reflexivity. Qed.
+
+(* ---- a scenario exercising most branches ------------------------------------------------------------- *)
+Definition cfg1 : config :=
+  {| c_enabled := true; c_init := 20 * ms; c_rf := (0, 1); c_mult := (2, 1); c_maxint := 100 * ms; c_maxel := 0 |}.
+
+Definition sc1 (stop : option Z) (deadline : option Z) (maxel : Z) : scenario :=
+  {| sc_cfg := {| c_enabled := true; c_init := 20 * ms; c_rf := (0, 1); c_mult := (2, 1); c_maxint := 100 * ms; c_maxel := maxel |};
+     sc_timeout := 50 * ms; sc_sig := SLogs; sc_payload := [1; 2; 3; 3];
+     sc_deadline := deadline; sc_cancel := None; sc_stop := stop; sc_draws := [];
+     sc_tie := fun _ => [WCtx; WStop; WTimer] |}.
+
+Definition script1 : list attempt :=
+  [ {| a_dur := 10 * ms; a_res := RErr [LWrap; LPartial SLogs [2; 3; 3]] |};          (* partial: resend 2,3,3 *)
+    {| a_dur := 10 * ms; a_res := RErr [LThrottle (70 * ms); LPartial STraces [9]] |}; (* throttle; foreign data ignored *)
+    {| a_dur := 90 * ms; a_res := ROk |};                                              (* slower than the 50 ms timeout *)
+    {| a_dur := 10 * ms; a_res := RErr [LPartial SLogs [3]; LPerm] |};                 (* permanent deep in the chain *)
+    {| a_dur := 10 * ms; a_res := ROk |} ].
+
+(* starts, payloads and delays of the attempts; verdict *)
+Example ex_run1 :
+  (map (fun st => (s_start st, s_payload st, s_delay st)) (steps_of (sc1 None None 0) script1),
+   verdict_of (sc1 None None 0) script1) =
+  ([ (0, [1; 2; 3; 3], 20 * ms); (30 * ms, [2; 3; 3], 70 * ms); (110 * ms, [2; 3; 3], 80 * ms);
+     (240 * ms, [2; 3; 3], 100 * ms) ], VPermanent).
+Proof. vm_compute. reflexivity. Qed.
+
+(* shutdown at 60 ms falls into the second wait (40 ms .. 110 ms): shutdown-classified *)
+Example ex_run1_stop :
+  (length (steps_of (sc1 (Some (60 * ms)) None 0) script1), verdict_of (sc1 (Some (60 * ms)) None 0) script1,
+   final_is_shutdown (sc1 (Some (60 * ms)) None 0) script1) = (2%nat, VShutdown, true).
+Proof. vm_compute. reflexivity. Qed.
+
+(* the hypotheses of shutdown_classified hold for that run (step 1) *)
+Example ex_stop_hyps :
+  exists st, nth_error (steps_of (sc1 (Some (60 * ms)) None 0) script1) 1 = Some st /\
+             reaches_wait (sc1 (Some (60 * ms)) None 0) st /\
+             Z.max (s_end st) (60 * ms) < s_end st + s_delay st.
+Proof.
+  eexists. split; [vm_compute; reflexivity|]. split.
+  - unfold reaches_wait, fits_elapsed, fits_deadline. cbn. split; [reflexivity|]. split.
+    + eexists. split; reflexivity.
+    + split; [discriminate|]. split; [intros H; vm_compute in H; discriminate|]. intros dl H. discriminate.
+  - vm_compute. reflexivity.
+Qed.
+
+(* a deadline at 100 ms: the second delay (70 ms from 40 ms) does not fit *)
+Example ex_run1_deadline :
+  (length (steps_of (sc1 None (Some (100 * ms)) 0) script1), verdict_of (sc1 None (Some (100 * ms)) 0) script1)
+  = (2%nat, VDeadline).
+Proof. vm_compute. reflexivity. Qed.
+
+(* an elapsed budget of 200 ms: the third delay (80 ms from 160 ms) does not fit *)
+Example ex_run1_budget :
+  (length (steps_of (sc1 None None (200 * ms)) script1), verdict_of (sc1 None None (200 * ms)) script1)
+  = (3%nat, VNoMoreRetries).
+Proof. vm_compute. reflexivity. Qed.
+
+(* the hypothesis of payload_chain holds for script1 (every remainder is a sub-multiset) *)
+Example ex_payload_hyp : sub_ms [2; 3; 3] [1; 2; 3; 3] /\ ~ sub_ms [3; 3; 3] [1; 2; 3; 3].
+Proof.
+  split.
+  - intros x. unfold countZ. simpl.
+    destruct (x =? 1) eqn:E1, (x =? 2) eqn:E2, (x =? 3) eqn:E3; simpl; lia.
+  - intros H. specialize (H 3). vm_compute in H. lia.
+Qed.
+
+(* retry disabled: one attempt, the error comes back as it is *)
+Example ex_disabled :
+  let sc := {| sc_cfg := {| c_enabled := false; c_init := 0; c_rf := (0, 1); c_mult := (0, 1); c_maxint := 0; c_maxel := 0 |};
+               sc_timeout := 0; sc_sig := SMetrics; sc_payload := [4]; sc_deadline := None; sc_cancel := None;
+               sc_stop := None; sc_draws := []; sc_tie := fun _ => [] |} in
+  (length (steps_of sc script1), verdict_of sc script1) = (1%nat, VRaw).
+Proof. vm_compute. reflexivity. Qed.
+
+(* the former S4 witness scenario (initial_interval 0, shutdown at 5 during the first attempt, the tie of
+   the zero-length wait resolved for the TIMER): with the post-timer stop check the run ends after one
+   attempt with the shutdown verdict, whichever way the tie goes *)
+Example ex_s4_fixed :
+  (map (fun st => (s_start st, s_delay st, s_wake st)) (steps_of s4_scenario s4_script),
+   verdict_of s4_scenario s4_script, final_is_shutdown s4_scenario s4_script) = ([(0, 0, WTimer)], VShutdown, true).
+Proof. vm_compute. reflexivity. Qed.
+
+Example ex_s4_other :
+  verdict_of {| sc_cfg := s4_cfg; sc_timeout := 0; sc_sig := SLogs; sc_payload := [1]; sc_deadline := None;
+                sc_cancel := None; sc_stop := Some 5; sc_draws := []; sc_tie := fun _ => [WStop] |} s4_script = VShutdown.
+Proof. vm_compute. reflexivity. Qed.
+
+(* the tie oracle still matters for timer vs context: cancel at 10 = end of the first attempt = timer instant *)
+Example ex_tie_ctx :
+  let sc t := {| sc_cfg := s4_cfg; sc_timeout := 0; sc_sig := SLogs; sc_payload := [1]; sc_deadline := None;
+                 sc_cancel := Some 10; sc_stop := None; sc_draws := []; sc_tie := fun _ => t |} in
+  (verdict_of (sc [WCtx]) s4_script, length (steps_of (sc [WTimer]) s4_script)) = (VCancelled, 2%nat).
+Proof. vm_compute. reflexivity. Qed.
